@@ -445,7 +445,58 @@ func genLargeGraph(r *core.Rand) core.Case {
 	}
 	lines := []string{sb.String()}
 	for i, ops := 0, r.Range(1, 2); i < ops; i++ {
-		if r.Chance(40) {
+		if r.Chance(25) {
+			// a state of the recursion on the large graph: R a clique of 0..3 vertices grown
+			// greedily, P ∪ X its common neighbours (split at random, in random order)
+			adjv := func(a, b int) bool {
+				if a > b {
+					a, b = b, a
+				}
+				return seen[pair{a, b}]
+			}
+			order := make([]int, n)
+			for k := range order {
+				order[k] = k
+			}
+			shuffle(r, order)
+			var R []int
+			want := r.Intn(4)
+			for _, v := range order {
+				if len(R) >= want {
+					break
+				}
+				ok := true
+				for _, u := range R {
+					if !adjv(v, u) {
+						ok = false
+					}
+				}
+				if ok && (len(R) > 0 || r.Chance(60)) {
+					R = append(R, v)
+				}
+			}
+			var P, X []int
+			for _, v := range order {
+				inR, all := false, true
+				for _, u := range R {
+					if u == v {
+						inR = true
+					}
+					if !adjv(v, u) {
+						all = false
+					}
+				}
+				if inR || !all {
+					continue
+				}
+				if r.Chance(75) {
+					P = append(P, v)
+				} else {
+					X = append(X, v)
+				}
+			}
+			lines = append(lines, fmt.Sprintf("bkx %s | %s | %s", joinInts(R), joinInts(P), joinInts(X)))
+		} else if r.Chance(40) {
 			lines = append(lines, "cliques")
 		} else {
 			ps := make([]int, n)
@@ -562,6 +613,16 @@ func corpus() []core.Case {
 		{Lines: []string{"@ C18 dp 0 1 0 2 1 5 0 1", "knap 0 nil", "knap 0 t", "knap 0 f", "knap 1 lex", "knap 1 nil", "solv 0 0 nil 1", "solv 0 1 nil 2", "solv 0 1 t 3"}},
 		{Lines: []string{"@ C18 dp 2 2 0 3 2 2 0 1", "knap 2 nil", "knap 3 h5", "knap 4 le", "knap 1 f"}},
 		{Lines: []string{"@ C18 dp", "knap 0 f", "knap 14 nil", "solv 0 1 nil 3", "solv 0 0 f 4", "solv 9 1 lex 5"}},
+		// magnitude: values at the int64 guard (2^62 + (2^62 - 2) + 1 = 2^63 - 1: every total is still a Go
+		// int); limits and maxValue around 2^62 and at math.MaxInt - 1
+		{Tag: "magnitude", Lines: []string{"@ C18 dp 1 4611686018427387904 1 4611686018427387902 2 1",
+			"knap 0 nil", "knap 1 nil", "knap 2 t", "knap 3 gt", "knap 4 h3",
+			"solv 4611686018427387903 0 nil 1", "solv 4611686018427387903 1 nil 2", "solv 4611686018427387904 1 t 3",
+			"solv 9223372036854775806 1 nil 4", "solv 9223372036854775805 0 h7 5", "solv 0 1 nil 6"}},
+		{Tag: "magnitude", Lines: []string{"@ C18 dp 0 9223372036854775806 3 1", "knap 0 nil", "knap 3 nil", "knap 2 f",
+			"solv 9223372036854775806 1 nil 1", "solv 9223372036854775805 1 nil 2", "solv 1 1 nil 3"}},
+		{Tag: "magnitude", Lines: []string{"@ C18 dp 2 3074457345618258602 2 3074457345618258602 2 3074457345618258602 1 1",
+			"knap 4 nil", "knap 6 lex", "knap 7 ge", "solv 6148914691236517204 1 nil 1", "solv 6148914691236517205 1 t 2", "solv 9223372036854775806 0 nil 3"}},
 		// large: 18 / 33 unit-weight items with limits around the item count (a cell that is not
 		// the last one holds ≥ 17 items), 20 two-valued items for the solvers, a path and a cycle
 		// on 33 / 40 vertices, 12 triangles + 4 isolated vertices on 40 vertices
